@@ -100,7 +100,8 @@ def build(spec):
         import hypergraphx
         import hypergraphx.motifs.utils as mu
 
-        if symbolic:
+        if symbolic and order == 4:
+            # generate_motifs(4) costs 1.2 s per call (6 calls per path): memoised copy; order 3 runs the real function
             _REAL.setdefault("generate_motifs", mu.generate_motifs)
             ctx = standins.bound(mu, generate_motifs=memo_generate)
         else:
@@ -138,10 +139,11 @@ def build(spec):
         present = [c for c, b in zip(cands, bits) if b]
         if not [e for e in present if 2 <= len(e) <= order]:
             return None
-        if S.symbolic and order == 4:
-            # every presence bit is a concrete Boolean on this path and no other symbolic value exists: the order-4
-            # enumerators and the brute-force reference (16 s + 60 s per path under the tracer, which wraps every set
-            # and dict) run natively on the solver-chosen hypergraph
+        if S.symbolic:
+            # every presence bit is a concrete Boolean on this path and no other symbolic value exists: the
+            # enumerators and the brute-force reference (order 4: 16 s + 60 s per path under the tracer, which wraps
+            # every set and dict; order 3 with the real generate_motifs: 0.25 s per path) run natively on the
+            # solver-chosen hypergraph
             from crosshair.tracers import NoTracing
 
             with NoTracing():
@@ -317,8 +319,8 @@ META = {
                  "path",
         "thorough": "order 3: a second family on 5 nodes with a size-6 hyperedge; order 4: both families completely",
     },
-    "stand_ins": ["generate_motifs in motifs/utils.py -> the same function evaluated once outside the tracer and copied "
-                  "per call (it has no input besides N)"],
+    "stand_ins": ["generate_motifs in motifs/utils.py, order 4 only -> the same function evaluated once outside the tracer "
+                  "and copied per call (it has no input besides N); order 3 runs the real function on every call"],
     "outside_claim": ["hypergraphs outside the candidate families; configuration-model rounds (runs_config_model > 0)",
                       "directed census: invariance, canonical representatives and ignoring of larger hyperedges are "
                       "checked; its counts are not compared with an enumeration (the property does not define one)"],
